@@ -512,3 +512,62 @@ def build_user_zone(spec):
 def user_zone_windows(spec):
     ref = user_zone_ref(spec)
     return plan(ref, "cycle", cycle_years=12)
+
+
+# ---- operation histories on the zone-interval cache, derived from its constants (shared by C04 and C06) ------------
+
+CACHE_PERIOD_DAYS = 32       # _PERIOD_SHIFT = 5
+CACHE_SLOTS = 512            # periods p and p +- 512k share a slot
+CACHE_SPAN_NS = CACHE_PERIOD_DAYS * CACHE_SLOTS * DAY_NS
+LONG_K = (1, 2)              # + the largest k that still lies inside the interval
+
+
+def cache_order_histories(L, lo, hi, full=True):
+    """Yields (anchor ns, kind, label, [instants]) - query sequences for a FRESH cached zone, computed from an interval list only.
+
+    (a) every transition T in [lo, hi] whose UTC day is the first or last day of a 32-day cache period.  `around` = end of the previous day,
+        00:00 of T's day, T-1ns, T, T+1ns, end of T's day, 00:00 of the next day.  One first step, then `around` ascending, for each first step in
+        {following period, previous period, T + 512 periods, T-1ns - 512 periods} and (full) {T + 1024, T-1ns - 1024 periods};
+        (full) the +-512 aliases and the neighbouring periods also followed by `around` descending; (full) `around` asc/desc followed by all first steps.
+    (b) every interval in [lo, hi] longer than 512 periods that ends: first end - k*512 periods (k = 1, 2 and the largest k inside the interval,
+        one history each), then end-1ns, end, end+1ns, the end of that UTC day."""
+    per = CACHE_PERIOD_DAYS * DAY_NS
+    span = CACHE_SPAN_NS
+    ok = lambda q: MIN_NS <= q <= MAX_NS  # noqa: E731
+    for k in range(1, len(L)):
+        T = L[k][0]
+        if T is None or not (lo <= T <= hi):
+            continue
+        day = T // DAY_NS
+        if day % CACHE_PERIOD_DAYS not in (0, CACHE_PERIOD_DAYS - 1):
+            continue
+        d0 = day * DAY_NS
+        around = sorted({q for q in (d0 - 1, d0, T - 1, T, T + 1, d0 + DAY_NS - 1, d0 + DAY_NS) if ok(q)})
+        pstart = (day - day % CACHE_PERIOD_DAYS) * DAY_NS
+        firsts = [("following period", pstart + per + per // 2), ("previous period", pstart - per // 2),
+                  ("+512 periods", T + span), ("-512 periods", T - 1 - span)]
+        far = [("+1024 periods", T + 2 * span), ("-1024 periods", T - 1 - 2 * span)]
+        kind = "edge-first-day" if day % CACHE_PERIOD_DAYS == 0 else "edge-last-day"
+        for nm, f in firsts + (far if full else []):
+            if ok(f):
+                yield T, kind, nm + " first, then ascending", [f] + around
+        if full:
+            for nm, f in firsts:
+                if ok(f):
+                    yield T, kind, nm + " first, then descending", [f] + around[::-1]
+            alls = [f for _, f in firsts + far if ok(f)]
+            yield T, kind, "ascending, then all first steps", around + alls
+            yield T, kind, "descending, then all first steps", around[::-1] + alls[::-1]
+    for t in L:
+        e = t[1]
+        if e is None or not (lo <= e <= hi):
+            continue
+        s = MIN_NS if t[0] is None else t[0]
+        if e - s <= span:
+            continue
+        kmax = (e - s) // span
+        if s + kmax * span > e - 1:
+            kmax -= 1
+        tail = [q for q in (e - 1, e, e + 1, (e // DAY_NS + 1) * DAY_NS - 1) if ok(q)]
+        for kk in sorted({x for x in LONG_K + (kmax,) if 1 <= x <= kmax}):
+            yield e, "long-interval", "%d x 512 periods before the end first" % kk, [e - kk * span] + tail
